@@ -17,6 +17,15 @@ PROP_V = 'Props/C12.v'
 CORR_V = ('Corr/CorrC12.v',)
 HEADER = 'Require Import V.Usid.Reduce V.Corr.CorrC12.\n'
 
+def cfrac(x):
+    """a floating-point number as the exact binary fraction (numerator, denominator); not finite -> denominator 0 (never close)"""
+    x = float(np.real(x))
+    if not np.isfinite(x):
+        return cpair(cZ(0), cZ(0))
+    n, d = x.as_integer_ratio()
+    return cpair(cZ(n), cZ(d))
+
+
 FNS = [('sum', da.sum, np.sum, 0), ('max', da.max, np.max, 1), ('min', da.min, np.min, 2), ('mean', da.mean, np.mean, None), ('std', da.std, np.std, None)]
 
 
@@ -30,6 +39,7 @@ def run(ctx, build):
     lays.insert(0, gen.Layout([7, 3], [0, 1], [3, 2], [0, 1], dtype='f8', vkind=2))
     cases, meta = [], []
     vcases, vmeta = [], []
+    mcases, mmeta = [], []
     hist = {'datasets': 0, 'reductions': 0, 'functions': {}, 'reduced': {'some_pos': 0, 'all_pos': 0, 'some_spec': 0, 'all_spec': 0, 'both_sides': 0},
             'axes_left': {}, 'written': 0, 'raised_on_write': {}, 'in_memory_only': 0}
     distinct = set()
@@ -82,6 +92,7 @@ def run(ctx, build):
                 before = dump_group(main.parent)
                 red = new = None
                 exc = None
+                mom_mem = mom_file = None
                 try:
                     with common.quiet():
                         red, new = u.reduce(dims, ufunc=dfn, to_hdf5=to_file)
@@ -100,6 +111,7 @@ def run(ctx, build):
                         violate(cls, 'returned_array_differs_from_axis_reduction', '%s vs %s | %s' % (got.shape, want.shape, desc), desc)
                     if code is not None:
                         omem = '(Some %s)' % cpair(clist(list(got.shape), cnat), clist([int(round(float(x))) for x in got.ravel()], cZ))
+                    mom_mem = got
                 else:
                     kk = type(exc).__name__
                     hist['raised_on_write'][kk] = hist['raised_on_write'].get(kk, 0) + 1
@@ -112,6 +124,7 @@ def run(ctx, build):
                             violate(cls, 'returned_array_differs_from_axis_reduction', '%s vs %s | %s' % (got.shape, want.shape, desc), desc)
                         if code is not None:
                             omem = '(Some %s)' % cpair(clist(list(got.shape), cnat), clist([int(round(float(x))) for x in got.ravel()], cZ))
+                        mom_mem = got
                     except Exception as e2:
                         violate(cls, 'in_memory_reduction_raises', '%r %s' % (e2, desc), desc)
                 if to_file and exc is None:
@@ -169,6 +182,7 @@ def run(ctx, build):
                         if data.ndim != 2:
                             problems.append(('result_not_2d', str(data.shape)))
                         else:
+                            mom_file = data
                             rem = [l for l in labels if l not in dims]
                             bad_el = None
                             for r in range(data.shape[0]):
@@ -204,6 +218,14 @@ def run(ctx, build):
                     for k0 in list(main.parent.keys()):
                         if '-Reduce_' in k0:
                             del main.parent[k0]
+                if code is None and (mom_mem is not None or to_file):
+                    # mean / std against the exact rational moments of the model (Usid/ReduceMoments.v)
+                    o_m = 'None' if mom_mem is None else '(Some %s)' % cpair(clist(list(mom_mem.shape), cnat), clist(list(mom_mem.ravel()), cfrac))
+                    o_f = 'None' if mom_file is None else '(Some %s)' % cpair(cnat(mom_file.shape[0]), cnat(mom_file.shape[1]), clist(list(mom_file.ravel()), cfrac))
+                    mcases.append(cpair(clist([[int(x) for x in row] for row in ids], lambda r: clist(r, cZ)), gc.cmat(gc.mat(lay.pos_inds())), gc.cmat(gc.mat(lay.spec_inds())),
+                                        clist([labels.index(d) for d in dims], cnat), cnat(0 if name == 'mean' else 1), cbool(to_file), cpair(o_m, o_f)))
+                    mmeta.append(desc)
+                    hist['moments_cases'] = hist.get('moments_cases', 0) + 1
                 if code is not None and (exc is None or to_file):
                     if not to_file:
                         continue
@@ -251,16 +273,17 @@ def run(ctx, build):
                 del main.parent[nm.parent.name.split('/')[-1]]
     bad, err = common.coq_eval_cases(ctx, HEADER, cases, 'check12', case_type='case12', per_file=40)
     bad2, err2 = common.coq_eval_cases(ctx, HEADER, vcases, 'check12v', case_type='case12v', per_file=150, tag='vals')
-    out.corr_error = err or err2
-    out.disagreements = [meta[i] for i in bad] + [vmeta[i] for i in bad2]
-    out.evaluations = len(cases) + len(vcases)
+    bad3, err3 = common.coq_eval_cases(ctx, HEADER, mcases, 'check12m', case_type='case12m', per_file=40, tag='moments')
+    out.corr_error = err or err2 or err3
+    out.disagreements = [meta[i] for i in bad] + [vmeta[i] for i in bad2] + [dict(mmeta[i], moments=True) for i in bad3]
+    out.evaluations = len(cases) + len(vcases) + len(mcases)
     out.distinct_nontrivial = len(distinct)
     out.rule = ('generator datasets in every storage order (1-3 dimensions per side, 3 dtypes); random non-empty subsets of the dimension names plus "all position" '
                 'and "all spectroscopic"; sum / max / min / mean / std; in memory and written back; wrappers with sort_dims on and off; oracle: returned array '
                 'against numpy on the N-D form built from the generator\'s coordinates, validity, every file element located by the values of its remaining '
                 'dimensions equals the reduction of its fibre, untouched sides reused, reduced sides keep labels / original unit values, placeholder, source '
-                'unchanged; raising on write is accepted; model evaluated on sum / max / min (exact integers); non-trivial = distinct (layout, subset, function, mode)')
+                'unchanged; raising on write is accepted; model evaluated on sum / max / min (exact integers) and on mean / std (exact rational moments of the model against the returned / written floating-point numbers as exact binary fractions, relative tolerance 2^-16); non-trivial = distinct (layout, subset, function, mode)')
     out.histogram = hist
-    out.trusted = ['dask reductions: mean and std are judged by the numpy oracle only (floating point is outside the Coq model; partial)',
+    out.trusted = ['mean and std: the model carries exact (sum, sum of squares, count) per fibre; the floating-point division / square root of dask is compared inside a relative tolerance of 2^-16, not modelled bit for bit (partial)',
                    'joint proof that reshape_from_n_dims places the fibres correctly is not available (C10 theorem missing): decided by correspondence + oracle']
     return out
